@@ -174,6 +174,9 @@ pub enum GOp {
     RemovePartition,
     Poll(u8, u32),
     Send(u32),
+    /// the client joins / leaves the second group of the same topic
+    Join2(u8),
+    Leave2(u8),
 }
 
 fn g_alphabet() -> Vec<GOp> {
@@ -193,6 +196,8 @@ fn g_alphabet() -> Vec<GOp> {
         GOp::RemovePartition,
         GOp::Send(1),
         GOp::Send(2),
+        GOp::Join2(1),
+        GOp::Leave2(1),
     ]
 }
 
@@ -207,6 +212,7 @@ fn build_grp_template(scratch: &Scratch, cfg: &NodeCfg) -> Template {
     let client = w.node.tcp_root_client();
     w.node.block_on(async {
         client.create_consumer_group(&sid(), &sid(), "g1", Some(1)).await.expect("group 1");
+        client.create_consumer_group(&sid(), &sid(), "g2", Some(2)).await.expect("group 2");
     });
     drop(client);
     for p in [1u32, 2] {
@@ -224,6 +230,8 @@ fn build_grp_template(scratch: &Scratch, cfg: &NodeCfg) -> Template {
 struct GState {
     sessions: [Option<Arc<Session>>; 3],
     member: [bool; 3],
+    /// membership of the second group
+    member2: [bool; 3],
     /// messages per partition id
     count: BTreeMap<u32, u64>,
     /// next offset the group must be handed per partition
@@ -234,13 +242,17 @@ struct GState {
 }
 
 fn group_shares(w: &mut World) -> Result<BTreeMap<u32, Vec<u32>>, String> {
+    group_shares_of(w, 1)
+}
+
+fn group_shares_of(w: &mut World, group: u32) -> Result<BTreeMap<u32, Vec<u32>>, String> {
     let shared = w.node.shared();
     let root = w.node.root.clone();
     w.node
         .try_block_on(async move {
             let s = shared.read().await;
-            let g = s.get_consumer_group(&root, &sid(), &sid(), &Identifier::numeric(1).unwrap()).map_err(|e| format!("{e:?}"))?;
-            let Some(g) = g else { return Err("group 1 not found".to_string()) };
+            let g = s.get_consumer_group(&root, &sid(), &sid(), &Identifier::numeric(group).unwrap()).map_err(|e| format!("{e:?}"))?;
+            let Some(g) = g else { return Err(format!("group {group} not found")) };
             let g = g.read().await;
             Ok(shares(&g).await)
         })
@@ -280,6 +292,7 @@ fn run_grp(scratch: &Scratch, tpl: &Template, hist: &[GOp], res: &mut JobResult,
     let mut st = GState {
         sessions: [None, None, None],
         member: [false; 3],
+        member2: [false; 3],
         count: [(1u32, 3u64), (2, 3)].into_iter().collect(),
         next: [(1u32, 0u64), (2, 0)].into_iter().collect(),
         handed: BTreeMap::new(),
@@ -331,6 +344,30 @@ fn run_grp(scratch: &Scratch, tpl: &Template, hist: &[GOp], res: &mut JobResult,
                         Err(p) => return Err(format!("leave panicked: {p}")),
                     }
                 }
+                GOp::Join2(c) | GOp::Leave2(c) => {
+                    let join = matches!(op, GOp::Join2(_));
+                    let ci = (*c - 1) as usize;
+                    let sess = ensure_session(&mut w, &mut st, ci);
+                    let shared = w.node.shared();
+                    let gid2 = Identifier::numeric(2).unwrap();
+                    let r = w.node.try_block_on(async move {
+                        let s = shared.read().await;
+                        if join {
+                            s.join_consumer_group(&sess, &sid(), &sid(), &gid2).await
+                        } else {
+                            s.leave_consumer_group(&sess, &sid(), &sid(), &gid2).await
+                        }
+                    });
+                    match r {
+                        Ok(Ok(())) => st.member2[ci] = join,
+                        Ok(Err(e)) => {
+                            if st.member2[ci] != join {
+                                return Err(format!("{} the second group refused: {e:?}", if join { "joining" } else { "leaving" }));
+                            }
+                        }
+                        Err(p) => return Err(format!("second group: join/leave panicked: {p}")),
+                    }
+                }
                 GOp::Disconnect(c) => {
                     let ci = (*c - 1) as usize;
                     if let Some(sess) = st.sessions[ci].take() {
@@ -344,6 +381,7 @@ fn run_grp(scratch: &Scratch, tpl: &Template, hist: &[GOp], res: &mut JobResult,
                             return Err(format!("disconnect panicked: {p}"));
                         }
                         st.member[ci] = false;
+                        st.member2[ci] = false;
                     }
                 }
                 GOp::AddPartition | GOp::RemovePartition => {
@@ -471,6 +509,23 @@ fn run_grp(scratch: &Scratch, tpl: &Template, hist: &[GOp], res: &mut JobResult,
         }
         // assignment invariants
         let parts = partitions_now(&mut w);
+        match group_shares_of(&mut w, 2) {
+            Err(e) => {
+                viol = Some((i, e));
+                break;
+            }
+            Ok(sh2) => {
+                let members_model = st.member2.iter().filter(|m| **m).count();
+                if sh2.len() != members_model {
+                    viol = Some((i, format!("the second group has {} members, {} clients are joined to it", sh2.len(), members_model)));
+                    break;
+                }
+                if let Err(e) = check_shares(&sh2, parts) {
+                    viol = Some((i, format!("second group: {e}")));
+                    break;
+                }
+            }
+        }
         match group_shares(&mut w) {
             Err(e) => {
                 viol = Some((i, e));
@@ -497,7 +552,7 @@ fn run_grp(scratch: &Scratch, tpl: &Template, hist: &[GOp], res: &mut JobResult,
                 }
                 st.handed.retain(|m, _| sh.contains_key(m));
                 if i + 1 >= canonical_from {
-                    res.state_keys.push(hash64(format!("{:?}|{:?}|{:?}|{parts}", sh.values().collect::<Vec<_>>(), st.next, st.count).as_bytes()));
+                    res.state_keys.push(hash64(format!("{:?}|{:?}|{:?}|{parts}|{:?}", sh.values().collect::<Vec<_>>(), st.next, st.count, st.member2).as_bytes()));
                 }
                 res.obs_keys.push(hash64(format!("{:?}{parts}", sh.values().map(|v| v.len()).collect::<Vec<_>>()).as_bytes()));
                 st.last_shares = sh;
@@ -542,7 +597,7 @@ pub fn plan(tier: &str) -> (PropMeta, Vec<Job>) {
         id: "C08",
         level: "model_checking",
         rule: format!(
-            "level 1: every history of exactly {d1} operations over {:?} on the real in-memory ConsumerGroup (starting with 0 and with 3 partitions); level 2: every history of exactly {d2} operations over {:?} on the real System with three client sessions, a topic starting with 2 partitions x 3 messages and one journalled group; after every step the assignment read from the group (exclusive, covering, balanced within 1), the partition a partition-less poll is served from (own share, each partition in turn) and the offsets handed to the group per partition (exactly the next ones, none twice) are checked",
+            "level 1: every history of exactly {d1} operations over {:?} on the real in-memory ConsumerGroup (starting with 0 and with 3 partitions); level 2: every history of exactly {d2} operations over {:?} on the real System with three client sessions, a topic starting with 2 partitions x 3 messages and two journalled groups (clients join and poll the first; client 1 can also join and leave the second, so that being in two groups and leaving one is covered); after every step the assignment read from the group (exclusive, covering, balanced within 1), the partition a partition-less poll is served from (own share, each partition in turn) and the offsets handed to the group per partition (exactly the next ones, none twice) are checked",
             m_alphabet().iter().map(|o| format!("{o:?}")).collect::<Vec<_>>(),
             g_alphabet().iter().map(|o| format!("{o:?}")).collect::<Vec<_>>()
         ),
